@@ -101,7 +101,47 @@ func (b *c14b) markerStmt(file, fn, dvar string, indent int, dead bool) {
 	}
 }
 
+// deadJumps emits live code whose compiled form contains instructions the
+// optimizer removes (the jump over an else branch after a return, code after a
+// return inside a loop body), so that every later instruction of the function
+// is shifted. Only inside functions (a return in the root body would end the script).
+func (b *c14b) deadJumps(file, fn string, indent int) {
+	x := b.v()
+	switch b.r.Intn(4) {
+	case 0:
+		b.emit(file, fn, "if "+itoa(b.r.Intn(9))+" < -1 {", indent)
+		b.emit(file, fn, "return 0", indent+1)
+		b.emit(file, fn, "} else {", indent)
+		b.emit(file, fn, x+" := 1", indent+1)
+		b.emit(file, fn, "}", indent)
+	case 1:
+		b.emit(file, fn, x+" := "+itoa(b.r.Intn(9)), indent)
+		b.emit(file, fn, "if "+x+" < -1 {", indent)
+		b.emit(file, fn, "return 1", indent+1)
+		b.emit(file, fn, "} else if "+x+" < -2 {", indent)
+		b.emit(file, fn, "return 2", indent+1)
+		b.emit(file, fn, "} else {", indent)
+		b.emit(file, fn, x+" = 3", indent+1)
+		b.emit(file, fn, "}", indent)
+	case 2:
+		b.emit(file, fn, "for "+x+" := 0; "+x+" < -1; "+x+"++ {", indent)
+		b.emit(file, fn, "return 3", indent+1)
+		b.emit(file, fn, "}", indent)
+	default:
+		b.emit(file, fn, "if "+itoa(b.r.Intn(9))+" < -1 {", indent)
+		b.emit(file, fn, "return 4", indent+1)
+		b.markerStmt(file, fn, "0", indent+1, true)
+		b.emit(file, fn, "} else {", indent)
+		b.emit(file, fn, x+" := 2", indent+1)
+		b.emit(file, fn, "}", indent)
+	}
+}
+
 func (b *c14b) noise(file, fn string, indent int) {
+	if fn != "<root>" && fn != "<lib>" && b.r.Chance(1, 2) {
+		b.deadJumps(file, fn, indent)
+		return
+	}
 	switch b.r.Intn(5) {
 	case 0:
 		b.emit(file, fn, b.v()+" := "+itoa(b.r.Intn(50))+" * 2 + 1", indent)
